@@ -98,7 +98,12 @@ impl Variable {
                 Some(Self::Tuple(elements))
             }
             Type::Void => Some(Variable::Void),
-            Type::Multi(multi_type) => multi_type.iter().next().and_then(Self::of_type),
+            Type::Multi(multi_type) => {
+                // members live in a hash set: pick by a canonical order, not by iteration order
+                let mut members: Box<[&Type]> = multi_type.iter().collect();
+                members.sort_by_cached_key(|member| member.canonical_string());
+                members.iter().copied().find_map(Self::of_type)
+            }
             Type::Mut(arc) => Some(
                 Mut {
                     var_type: arc.as_ref().clone(),
